@@ -1,6 +1,7 @@
 package main
 
 import (
+	"go/types"
 	"strings"
 
 	"golang.org/x/tools/go/ssa"
@@ -8,6 +9,7 @@ import (
 
 // Round-3 rules of C17 (written after seeds C17/7 and C17/8 were missed; C17/9 is reported by C17.keys).
 func c17Round3(c *Ctx) {
+	c17IdentityKeys(c)
 	// (a) the node's stake claim is recomputed on every registration that is accepted: the thresholds depend on the
 	// node's roles AND on its set of runtimes, both of which an allowed update can change, so a renewal that only
 	// checks the existing claims leaves the recorded claim behind the registration.
@@ -59,4 +61,87 @@ func c17Round3(c *Ctx) {
 		c.Fail("C17.claims", "registry ExecuteTx", "", "the registry's transaction handler was not found (unresolved anchor)")
 	}
 	wtfReportRoots(c, w, "C17.claims", roots)
+}
+
+// c17IdentityKeys (F48): "no public key is ever associated with two registered nodes" includes the node identity keys,
+// which are not in the index of consensus/P2P/TLS/VRF keys: before a node record is written registerNode has looked
+// every one of the node's keys up as a node identity (state.Node(key)) and the node's identity key up in the key index
+// (state.NodeBySubKey(newNode.ID)), and both look-ups lead to a rejection when another node is found.
+func c17IdentityKeys(c *Ctx) {
+	fn := c.needFn("C17.keys", pkRegApp+".(*Application).registerNode")
+	if fn == nil {
+		return
+	}
+	c.Analysed[fname(fn)] = true
+	var byID, bySub []ssa.Instruction
+	for _, call := range callsIn(fn) {
+		args := allArgs(call)
+		switch calleeName(call) {
+		case pkRegState + ".(*ImmutableState).Node":
+			// a look-up of one of the node's keys (an element of a key list), not of the node's own id
+			if len(args) == 3 && !strings.Contains(vstr(args[2]), "VerifyRegisterNodeArgs(") {
+				byID = append(byID, call)
+			}
+		case pkRegState + ".(*ImmutableState).NodeBySubKey":
+			if len(args) == 3 && strings.HasSuffix(vstr(args[2]), "#0.ID") {
+				bySub = append(bySub, call)
+			}
+		}
+	}
+	set := CallsTo(fn, "SetNode", fnSetNode, "")
+	for _, it := range []struct {
+		name string
+		ins  []ssa.Instruction
+		bad  string
+	}{
+		{"each node key looked up as a node identity", byID, "a node can be registered whose consensus/P2P/TLS/VRF key is the identity key of another registered node"},
+		{"the node identity key looked up in the key index", bySub, "a node can be registered whose identity key is the consensus/P2P/TLS/VRF key of another registered node"},
+	} {
+		inst := fname(fn) + ":SetNode⇐" + it.name
+		if len(it.ins) == 0 || set.Empty() {
+			c.Fail("C17.keys", inst, c.P.Pos(fn.Pos()), it.bad+" (the look-up was not found in registerNode): one public key is then associated with two registered nodes")
+			continue
+		}
+		cut := NewCut().AddInstr(it.ins...)
+		// a look-up inside a range loop over a fixed-size key array is passed whenever the loop is: cut at the loop head
+		for _, in := range it.ins {
+			for _, b := range fn.Blocks {
+				ifi := lastIfOf(b)
+				if ifi == nil || !strings.Contains(b.Comment, "rangeindex.loop") {
+					continue
+				}
+				bo, ok := ifi.Cond.(*ssa.BinOp)
+				if !ok {
+					continue
+				}
+				if k, isK := fixedLen(bo.Y); !isK || k <= 0 {
+					continue
+				}
+				if Reach(fn, nil, []Edge{{b, 0}}, isInstr(in), NewCut().AddInstr(ifi)) != nil {
+					cut.AddInstr(ifi)
+				}
+			}
+		}
+		hit := Reach(fn, nil, nil, anyOf(set.Ins), cut)
+		c.Check(hit == nil, "C17.keys", inst, c.P.InstrPos(it.ins[0]), "every path to SetNode passes the look-up", it.bad+": one public key is then associated with two registered nodes")
+	}
+}
+
+// fixedLen: v is a positive integer constant or the length of (a slice of) a fixed-size array.
+func fixedLen(v ssa.Value) (int64, bool) {
+	if k, ok := constInt(v); ok {
+		return k, true
+	}
+	call, ok := v.(*ssa.Call)
+	if !ok || calleeNameCommon(&call.Call) != "builtin.len" || len(call.Call.Args) != 1 {
+		return 0, false
+	}
+	x := call.Call.Args[0]
+	if sl, ok := x.(*ssa.Slice); ok {
+		x = sl.X
+	}
+	if arr, ok := derefType(x.Type()).Underlying().(*types.Array); ok {
+		return arr.Len(), true
+	}
+	return 0, false
 }
